@@ -53,7 +53,18 @@ PARTIAL = [
     "Lean also proves the structure of from_ttns (ttndo_structure), the identifier maps (suffix_tagging, "
     "reverseId_append), the padding lemma (padded_root_index, padded_root_no_contribution), the contraction-order filter "
     "(contraction_order_kets); the model of from_ttns has no legs: that _rec_add_children attaches the right legs is "
-    "decided by the dense contraction of the TTNDO; tensor-product expectation values (deepcopy + absorb) are oracle only",
+    "decided by the dense contraction of the TTNDO",
+    "tensor-product expectation values: Lean proves (all trees, any commutative semiring, all dimensions, any list of "
+    "sites) absorb_value (one absorb_into_open_legs call: record AND value, built by its single tensordot), "
+    "tensor_product_ket_value (the dense vector of the absorbed ket tensors is (x)_s O_s applied to the dense vector), "
+    "tensor_product_value / _padded_root (trace_ttndo on the network with the absorbed tensors evaluates to "
+    "sum_phys ((x)O psi) * psi', identity root + padded bond: <psi'|(x)O|psi> for every root bond dimension >= 1), "
+    "tensor_product_value_no_factor, tensor_product_factor_order.  NOT proved: in these theorems the output index of an "
+    "absorbed operator is read on the leg that carries the NAME of the physical leg, while the model "
+    "tensorProductExpectationValue calls that axis gOpOut s; that trace_ttndo treats both names alike (tensordot is "
+    "positional: tensordot_positional) is proved for one 4-node tree only (tensor_product_graph_partial) - "
+    "`tensor_product_graph` for all trees is open; the stream `tprod` compares the model's record, evaluated on the "
+    "real tensors, with the library's number; that the operator is applied to the KET copy un-conjugated is the oracle",
 ]
 ASSUMPTIONS = ["NumPy tensordot/pad/reshape semantics (tensordot = sum over a common index per pair: checked against the "
                "Lean semantics by the `ein` stream of C04 and by `model_value` here)", "dense contraction by tensordot over labelled legs",
@@ -316,9 +327,30 @@ def _graph_check(ctx, case, tag, rho, psi, ttno, names, mo_trace, mo_ttno, rid=R
         _model_value(ctx, case, tag, what, mo, ops, got)
 
 
-def _tprod_check(ctx, case, tag, rho, psi, names, rid=ROOT_ID):
-    """Stream `tprod` (value-level correspondence of tensor_product_expectation_value): for products on 0, 1, 2, n and a
-    random number of sites the Lean model (`Ttndo.tensorProductExpectationValue`: EVERY factor absorbed into the ket copy
+def _tprod_plan(case, psi, names):
+    """The products of the `tprod` stream of a case (a function of the case alone, so that the protocol lines can be
+    sent in the one batch of `run`): sites of the products on 0, 1, all and a random number of sites, and the lines."""
+    import random
+    inv = {v: k for k, v in names.items()}
+    n = len(names)
+    r = random.Random("tprod|" + json.dumps(case, sort_keys=True, default=str))
+    nr_seed = r.randrange(2 ** 32)
+
+    def kids(i):
+        return ",".join(str(inv[c]) for c in psi.nodes[names[i]].children) or "-"
+    tree = f"{inv[psi.root_id]} " + " ".join(f"{i}:{kids(i)};-" for i in range(n))
+    sizes = sorted({0, 1, n, r.randint(0, n)})
+    plans, lines = [], []
+    for k in sizes:
+        sites = r.sample(range(n), k)
+        plans.append(sites)
+        lines.append(f"C16 tprod {','.join(map(str, sites)) or '-'} {tree}")
+    return nr_seed, plans, lines
+
+
+def _tprod_check(ctx, case, tag, rho, psi, names, rid=ROOT_ID, mos=None):
+    """Stream `tprod` (value-level correspondence of tensor_product_expectation_value): for products on 0, 1, n and a
+    random number of sites (`_tprod_plan`; the lines travel in the one batch of `run`) the Lean model (`Ttndo.tensorProductExpectationValue`: EVERY factor absorbed into the ket copy
     of its site, then trace_ttndo) gives the binding record; contracted over the TTNDO's tensors and the single-site
     operators it must reproduce the library's number (integer tensors: the Lean model evaluates the record itself,
     exactly).  The routine is called twice on the same object: it must not modify it (second value == first)."""
@@ -345,20 +377,11 @@ def _tprod_check(ctx, case, tag, rho, psi, names, rid=ROOT_ID):
             operands.append((t, [f"gK{k}_{num[x]}" for x in nbs] + [f"gKP{k}"]))
         else:
             operands.append((t, [f"gB{k - 1}_{max(num[x] - 1, 0)}" for x in nbs] + [f"gBP{k - 1}"]))
-    r = random.Random("tprod|" + json.dumps(case, sort_keys=True, default=str))
-    nr = np.random.default_rng(r.randrange(2 ** 32))
+    nr_seed, plans, lines = _tprod_plan(case, psi, names)
+    nr = np.random.default_rng(nr_seed)
     exact = bool(case.get("exact"))
-
-    def kids(i):
-        return ",".join(str(inv[c]) for c in psi.nodes[names[i]].children) or "-"
-    tree = f"{inv[psi.root_id]} " + " ".join(f"{i}:{kids(i)};-" for i in range(n))
-    sizes = sorted({0, 1, min(2, n), n, r.randint(0, n)})
-    plans, lines = [], []
-    for k in sizes:
-        sites = r.sample(range(n), k)
-        plans.append(sites)
-        lines.append(f"C16 tprod {','.join(map(str, sites)) or '-'} {tree}")
-    mos = ctx.lean.batch(lines)
+    if mos is None or len(mos) != len(lines):
+        mos = ctx.lean.batch(lines)
     for sites, mo in zip(plans, mos):
         what = f"tprod on {len(sites) if len(sites) <= 2 else ('N' if len(sites) == n else 'k')} sites"
         ctx.tally("graph", what)
@@ -510,7 +533,7 @@ def _case(ctx, case, model_out=None):
         impl_struct = _impl_struct(rho)
         impl_order = " ".join(_hex(x) for x in ttndo_contraction_order(rho))
         lines = [_struct_line(psi, rid), _order_line(rho)] + _graph_lines(psi, ttno, names)
-        mo = model_out if model_out is not None else ctx.lean.batch(lines)
+        mo = model_out[:4] if model_out is not None else ctx.lean.batch(lines)
         ctx.corr_cases += 1
         # the insertion order of the node dictionary is not part of the stated structure (identifiers, parents, ordered
         # children): the node records are compared as sorted lists
@@ -521,7 +544,7 @@ def _case(ctx, case, model_out=None):
         # ---- stage B (graph): the model's global binding list of trace_ttndo / ttndo_ttno_expectation_value,
         #      evaluated by einsum on the real tensors, against the library's values
         _graph_check(ctx, case, tag, rho, psi, ttno, names, mo[2], mo[3], rid)
-        _tprod_check(ctx, case, tag, rho, psi, names, rid)
+        _tprod_check(ctx, case, tag, rho, psi, names, rid, mos=(model_out[4:] if model_out is not None else None))
     else:
         # the documented refusal: a separate bra leg for a parent that is not the root
         inner = [x for x in order if psi.nodes[x].parent is not None and psi.nodes[x].children]
@@ -681,7 +704,7 @@ def _model_lines(case):
     try:
         _, _, psi, ttno, names = _make(case)
         rho, rid, _, _, _ = _build_rho(case, psi)
-        return [_struct_line(psi, rid), _order_line(rho)] + _graph_lines(psi, ttno, names)
+        return [_struct_line(psi, rid), _order_line(rho)] + _graph_lines(psi, ttno, names) + _tprod_plan(case, psi, names)[2]
     except Exception:           # noqa: BLE001
         return None
 
@@ -699,13 +722,13 @@ def run(ctx):
     for i, c in enumerate(cases):
         ls = _model_lines(c)
         if ls:
-            owner[i] = len(lines)
+            owner[i] = (len(lines), len(ls))
             lines += ls
     outs = ctx.lean.batch(lines)
     for i, c in enumerate(cases):
         if ctx.time_left() < 0:
             break
-        _case(ctx, c, outs[owner[i]:owner[i] + 4] if i in owner else None)
+        _case(ctx, c, outs[owner[i][0]:owner[i][0] + owner[i][1]] if i in owner else None)
 
 
 def run_case(ctx, case):
